@@ -5,7 +5,7 @@ import Model.Spec.Tidy
 /-
 case <id> kind=consts
 case <id> kind=tidy v=<bits> unit=<hex> iu=<hex: implementation's unit> iv=<bits: implementation's value>
-case <id> kind=hist files=<N<name>:bits:unit+… ; … | …> fk=u|nu|name|all pat=<hex> ivals=<implementation's fresh values>
+case <id> kind=hist files=<N<name>:bits:unit+… ; … | …> fk=u|nu|name|all|re-MODE|nre-MODE (MODE = prefix|exact|sub|suffix: regexp built from the literal pat) pat=<hex> ivals=<implementation's fresh values>
 case <id> kind=file lines=<U:unit:key=val+key=val | B:bits:unit+bits:unit ; …> q=<hexlist> pat=<hexlist> ivals=<implementation's values>
 -/
 namespace Driver.C04
@@ -136,9 +136,21 @@ def handleHist (l : Line) : IO Unit := do
   let fk := l.getD "fk"
   let pat := unhex (l.getD "pat")
   let sName : Bytes := Bytes.ofString "Keep"
+  -- regexp terms built from a literal: ^lit, ^lit$, lit, lit$ decided on one spelling
+  let reMode := (fk.splitOn "-").getD 1 ""
+  let litMatch (u : Bytes) : Bool :=
+    match reMode with
+    | "prefix" => Bytes.hasPrefix u pat
+    | "exact" => u == pat
+    | "suffix" => Bytes.hasPrefix u.reverse pat.reverse
+    | _ => Bytes.contains u pat
+  let isRe := fk.startsWith "re-"
+  let isNre := fk.startsWith "nre-"
   -- model
   let keepModel (ln : HLine) (v : Value) : Bool :=
-    match fk with
+    if isRe then unitMatch litMatch v
+    else if isNre then !unitMatch litMatch v
+    else match fk with
     | "u" => unitMatch (· == pat) v
     | "nu" => !unitMatch (· == pat) v
     | "name" => ln.name == sName
@@ -164,8 +176,9 @@ def handleHist (l : Line) : IO Unit := do
   IO.println s!"spec {id} rep={rep} base={base}"
   let skept := "|".intercalate (files.map fun f => joinNE (f.map fun ln =>
     String.ofList (ln.ms.map fun (_, u) =>
-      let hit := pat == u || pat == (Spec.Tidy.tidyUnit u).1
-      let k := match fk with
+      let hit := if isRe || isNre then litMatch u || litMatch (Spec.Tidy.tidyUnit u).1
+                 else pat == u || pat == (Spec.Tidy.tidyUnit u).1
+      let k := if isRe then hit else if isNre then !hit else match fk with
         | "u" => hit
         | "nu" => !hit
         | "name" => ln.name == sName
